@@ -102,7 +102,7 @@ def analyze(argv):
     z3.Solver.check = check
 
     from vlib import shims
-    shims.install(symmpi='symmpi' in flags, hexmodel='nohex' not in flags, lazyhex='lazyhex' in flags)
+    shims.install(symmpi=('symmpi' in flags and not os.environ.get('VERIF_NO_SYMMPI')), hexmodel='nohex' not in flags, lazyhex='lazyhex' in flags)
     import crosshair.statespace as SS
     _init = SS.StateSpace.__init__
 
